@@ -151,7 +151,7 @@ func (fr *Frame) appendCall(in *ssa.Call) *GVal {
 		fmt.Sscanf(t.Len.Head, "%d", &n)
 		if n >= 0 && n <= 8 {
 			content := ex.st.cells[t.Reg]
-			t.Reg.frozen = true
+			ex.st.freeze(t.Reg)
 			arr := sArr
 			for k := int64(0); k < n; k++ {
 				arr = Store(arr, Add(sLen, IntLit(k)), Select(content, IntLit(k)))
@@ -296,7 +296,9 @@ func resultNames(fn *ssa.Function) []string {
 	for i := 0; i < res.Len(); i++ {
 		n := res.At(i).Name()
 		if n == "" || n == "_" {
-			if res.Len() == 1 {
+			if res.Len() == 1 && types.TypeString(res.At(i).Type(), nil) == "error" {
+				n = "err"
+			} else if res.Len() == 1 {
 				n = "result"
 			} else if i == res.Len()-1 && types.TypeString(res.At(i).Type(), nil) == "error" {
 				n = "err"
